@@ -54,6 +54,26 @@ pub enum Call {
 use Call::*;
 
 impl Call {
+    /// the same single-count call with another count (None for calls of another shape)
+    pub fn with_count(&self, n: u32) -> Option<Call> {
+        let p = Some(n);
+        Some(match self {
+            InsertCharacters(_) => InsertCharacters(p),
+            CursorUp(_) => CursorUp(p),
+            CursorDown(_) => CursorDown(p),
+            CursorForward(_) => CursorForward(p),
+            CursorBack(_) => CursorBack(p),
+            CursorDown1(_) => CursorDown1(p),
+            CursorUp1(_) => CursorUp1(p),
+            CursorToColumn(_) => CursorToColumn(p),
+            InsertLines(_) => InsertLines(p),
+            DeleteLines(_) => DeleteLines(p),
+            DeleteCharacters(_) => DeleteCharacters(p),
+            EraseCharacters(_) => EraseCharacters(p),
+            CursorToLine(_) => CursorToLine(p),
+            _ => return None,
+        })
+    }
     pub fn kind(&self) -> &'static str {
         match self {
             AlignmentDisplay => "alignment_display",
